@@ -6,6 +6,7 @@ Model: SpatialId/Model/Notation.lean (`sp2ext`, `ext2sp`, `voxelId`), `expandExt
 transform.ConvertExtendedSpatialIDToSpatialIDs, transform.GetVoxelIDfromSpatialID, object.NewExtendedSpatialID).
 -/
 import SpatialId.Props.C03
+import SpatialId.Lemmas.Parse
 namespace SpatialId.C10
 open SpatialId
 
@@ -71,25 +72,6 @@ theorem notation_no_panic (ids : List String) : sp2ext ids ≠ .panic ∧ ext2sp
   constructor <;> split <;> simp
 
 /-! ### parsing reads the five numbers in their positions -/
-
-theorem parseExt_fields (s : String) (e : Ext) (h : parseExt s = some e) :
-    ∃ a b c d f, splitSlash s = [a, b, c, d, f] ∧ parseInt64 a = some e.h ∧ parseInt64 b = some e.x ∧
-      parseInt64 c = some e.y ∧ parseInt64 d = some e.v ∧ parseInt64 f = some e.f := by
-  unfold parseExt at h
-  split at h
-  · rename_i a b c d f hs
-    split at h
-    · rename_i h' x' y' v' f' h1 h2 h3 h4 h5
-      simp only [Option.some.injEq] at h; subst h
-      exact ⟨a, b, c, d, f, hs, h1, h2, h3, h4, h5⟩
-    · simp at h
-  · simp at h
-
-theorem parseExt_arity (s : String) (h : (splitSlash s).length ≠ 5) : parseExt s = none := by
-  unfold parseExt
-  split
-  · rename_i hs; rw [hs] at h; simp at h
-  · rfl
 
 /-- `GetVoxelIDfromSpatialID` returns (x, y, f) of a well-formed extended ID -/
 theorem voxelId_components (s : String) (e : Ext) (h : parseExt s = some e) : voxelId s = .ok [e.x, e.y, e.f] := by
